@@ -348,6 +348,8 @@ class Torrent():
         include_regexs = tuple(re.compile(r) for r in self._include['regexs'])
         include = tuple(itertools.chain(include_globs, include_regexs))
         files = utils.filter_files(files, getter=relpath_with_parent,
+                                   basepath=(relpath_with_parent(basepath)
+                                             if basepath is not None else None),
                                    exclude=exclude, include=include,
                                    hidden=False, empty=False)
 
